@@ -22,7 +22,7 @@ NAMES = []
 def shards(tier, seed):
     n = 16
     per = 200 if tier == "quick" else 12500
-    return [{"id": "h%d" % i, "n": per} for i in range(n)]
+    return [{"id": "h%d" % i, "n": per} for i in range(n)] + [{"id": "shipped", "shipped": True}]
 
 
 def name_pool():
@@ -133,9 +133,63 @@ def compare(ctx, enums, wit, step):
             ctx.count("reverse_lookups")
 
 
+def run_shipped(ctx):
+    """the enumerations the library ships (the five command sets and the service-action enumeration of every entry) are
+    enumerations like any other: an addition to or removal from one of them is seen in that one and in no other"""
+    import pyscsi.pyscsi.scsi_enum_command as E
+
+    sets = ["spc", "sbc", "ssc", "smc", "mmc"]
+    enums = []  # (label, enumeration)
+    for sn in sets:
+        tbl = getattr(E, sn)
+        enums.append((sn, tbl))
+        for key in tbl.keys:
+            enums.append(("%s.%s.serviceaction" % (sn, key), getattr(tbl, key).serviceaction))
+
+    def snap():
+        return [{k: getattr(e, k) for k in e.keys} for _l, e in enums]
+
+    base = snap()
+    for i, (label, e) in enumerate(enums):
+        ctx.case(("shipped", label), True)
+        ctx.count("shipped_enumerations_probed")
+        name, val = "VMON_VENDOR_SPECIFIC_%d" % i, 0x1F
+        victim = next(iter(base[i]), None)
+        try:
+            e.add(name, val)
+            after_add = snap()
+            e.remove(name)
+            if victim is not None and "." in label:
+                e.remove(victim)
+                after_remove = snap()
+                e.add(victim, base[i][victim])
+            else:
+                after_remove = None
+        except Exception as ex:  # noqa: BLE001
+            ctx.fail("C18:shipped.add_remove_raises", "add/remove on %s raised %s: %s" % (label, type(ex).__name__, ex), {"enumeration": label}, exc=ex)
+            continue
+        for j, (other, _e2) in enumerate(enums):
+            if j == i:
+                if after_add[j].get(name) != val:
+                    ctx.fail("C18:shipped.add_not_visible", "%s.add(%r) is not visible in it" % (label, name), {"enumeration": label})
+                continue
+            if after_add[j] != base[j] or (after_remove is not None and after_remove[j] != base[j]):
+                ctx.fail("C18:shipped.one_enumeration_affects_another", "an addition to / removal from %s changed %s: %r" % (
+                    label, other, sorted(set(after_add[j]) ^ set(base[j])) or sorted(set((after_remove or base)[j]) ^ set(base[j]))), {"changed": label, "affected": other})
+                break
+        now = snap()
+        if now[i] != base[i]:
+            ctx.inconclusive_because("could not restore %s after probing it" % label)
+            return
+    ctx.count("shipped_enumerations", len(enums))
+
+
 def run(shard, ctx):
     from pyscsi.pyscsi.scsi_opcode import OpCode
     from pyscsi.utils.enum import Enum
+
+    if shard.get("shipped"):
+        return run_shipped(ctx)
 
     rng = ctx.rng()
     names = name_pool()
@@ -249,6 +303,8 @@ def finalize(merged, tier):
     c = merged["counters"]
     if c.get("operations", 0) == 0 or c.get("reverse_lookups", 0) == 0:
         merged["inconclusive"].append("model comparison never ran")
+    if c.get("shipped_enumerations_probed", 0) < 400:
+        merged["inconclusive"].append("shipped enumerations probed: %d" % c.get("shipped_enumerations_probed", 0))
     return {}
 
 
